@@ -120,19 +120,19 @@ type Case struct {
 }
 
 type Result struct {
-	ID         string           `json:"id"`
-	Class      string           `json:"class"`
-	Verdict    string           `json:"verdict"`
-	Sig        string           `json:"sig,omitempty"` // violation signature (known-findings key)
-	Msg        string           `json:"msg,omitempty"`
-	NonTrivial bool             `json:"nontrivial"`
-	Obs        map[string]int64 `json:"obs,omitempty"`
+	ID         string              `json:"id"`
+	Class      string              `json:"class"`
+	Verdict    string              `json:"verdict"`
+	Sig        string              `json:"sig,omitempty"` // violation signature (known-findings key)
+	Msg        string              `json:"msg,omitempty"`
+	NonTrivial bool                `json:"nontrivial"`
+	Obs        map[string]int64    `json:"obs,omitempty"`
 	Sets       map[string][]string `json:"sets,omitempty"` // named sets of distinct things observed (merged across cases)
-	Sample     any              `json:"sample,omitempty"`
-	Witness    string           `json:"witness,omitempty"`
-	WallMs     int64            `json:"wall_ms"`
-	Extra      []Result         `json:"extra,omitempty"` // additional verdicts produced by the same execution
-	Recycle    bool             `json:"recycle,omitempty"` // the worker process is poisoned (stuck goroutine): restart it
+	Sample     any                 `json:"sample,omitempty"`
+	Witness    string              `json:"witness,omitempty"`
+	WallMs     int64               `json:"wall_ms"`
+	Extra      []Result            `json:"extra,omitempty"`   // additional verdicts produced by the same execution
+	Recycle    bool                `json:"recycle,omitempty"` // the worker process is poisoned (stuck goroutine): restart it
 }
 
 func (r *Result) Count(k string, n int64) {
